@@ -492,6 +492,22 @@ impl CompactionManifest {
     }
 }
 
+#[cfg(feature = "verif")]
+impl CompactionManifest {
+    /// Verification hook: expose the private boundary-file search.
+    pub(crate) fn add_boundary_inputs_for_verif(
+        level_files: &[Arc<FileMetadata>],
+        compaction_files: &mut Vec<Arc<FileMetadata>>,
+    ) {
+        CompactionManifest::add_boundary_inputs(level_files, compaction_files)
+    }
+
+    /// Verification hook: the grandparent files chosen by `finalize_compaction_inputs`.
+    pub(crate) fn grandparents_for_verif(&self) -> &[Arc<FileMetadata>] {
+        &self.overlapping_grandparents
+    }
+}
+
 /// Private methods
 impl CompactionManifest {
     /**
